@@ -17,16 +17,16 @@ import (
 //     endPOST, stopTimer), apart from the initialisation before the entry is published in h.sessions.
 
 // net/http status constants (stdlib; part of the trusted base).
-var httpStatus = map[string]int{
+var sessHTTPStatus = map[string]int{
 	"StatusOK": 200, "StatusAccepted": 202, "StatusNoContent": 204, "StatusBadRequest": 400, "StatusUnauthorized": 401,
 	"StatusForbidden": 403, "StatusNotFound": 404, "StatusMethodNotAllowed": 405, "StatusConflict": 409, "StatusGone": 410,
 	"StatusRequestEntityTooLarge": 413, "StatusUnsupportedMediaType": 415, "StatusInternalServerError": 500,
 }
 
-func statusOf(c *Ctx, e ast.Expr) (int, bool) {
+func sessStatusOf(c *Ctx, e ast.Expr) (int, bool) {
 	if se, ok := e.(*ast.SelectorExpr); ok {
 		if id, ok := se.X.(*ast.Ident); ok && id.Name == "http" {
-			n, ok := httpStatus[se.Sel.Name]
+			n, ok := sessHTTPStatus[se.Sel.Name]
 			return n, ok
 		}
 	}
@@ -51,7 +51,7 @@ func httpErrorsIn(c *Ctx, n ast.Node) []int {
 		switch c.Src(ce.Fun) {
 		case "http.Error":
 			if len(ce.Args) == 3 {
-				if s, ok := statusOf(c, ce.Args[2]); ok {
+				if s, ok := sessStatusOf(c, ce.Args[2]); ok {
 					out = append(out, s)
 				} else {
 					out = append(out, -1)
@@ -59,7 +59,7 @@ func httpErrorsIn(c *Ctx, n ast.Node) []int {
 			}
 		case "w.WriteHeader":
 			if len(ce.Args) == 1 {
-				if s, ok := statusOf(c, ce.Args[0]); ok {
+				if s, ok := sessStatusOf(c, ce.Args[0]); ok {
 					out = append(out, s)
 				} else {
 					out = append(out, -1)
